@@ -2,7 +2,7 @@
 """usage: tools/mutate.py <repo-relative file> <old> <new> -- <check args...>
 Replace the first occurrence of <old> by <new> in /repo/<file>, run ./check with
 the given args, then restore the file (git checkout).  For sensitivity testing."""
-import subprocess, sys
+import subprocess, sys, shutil, os
 i = sys.argv.index("--")
 f, old, new = sys.argv[1:4]
 args = sys.argv[i + 1:]
@@ -11,6 +11,9 @@ s = open(p).read()
 if old not in s:
     print("pattern not found"); sys.exit(3)
 open(p, "w").write(s.replace(old, new, 1))
+shutil.rmtree("/tmp/tfv_ev_backup", ignore_errors=True)
+shutil.copytree("/verif/evidence", "/tmp/tfv_ev_backup")
+before = set(os.listdir("/verif/replays")) if os.path.isdir("/verif/replays") else set()
 try:
     r = subprocess.run(["/verif/check"] + args, capture_output=True, text=True)
     out = r.stdout.strip().splitlines()
@@ -18,3 +21,9 @@ try:
     print("MUTANT rc=%d (%s)" % (r.returncode, "KILLED" if r.returncode == 1 else "SURVIVED" if r.returncode == 0 else "HARNESS-ERROR"))
 finally:
     subprocess.run(["git", "-C", "/repo", "checkout", "--", f])
+    shutil.rmtree("/verif/evidence", ignore_errors=True)
+    shutil.copytree("/tmp/tfv_ev_backup", "/verif/evidence")
+    shutil.rmtree("/tmp/tfv_ev_backup", ignore_errors=True)
+    if os.path.isdir("/verif/replays"):
+        for x in set(os.listdir("/verif/replays")) - before:
+            os.remove(os.path.join("/verif/replays", x))
